@@ -45,6 +45,10 @@ struct Engine {
   static constexpr bool kInstrAlloc = AllocKind<Alloc>::fam != FAM_NONE || I::kFixed;
   enum : uintmax_t { kMaxLen = 40 };  // an enumerator, not a static member: no definition needed when bound to a reference before C++17
 
+  const void *pd_data[8] = {nullptr, nullptr, nullptr, nullptr, nullptr, nullptr, nullptr, nullptr};  // data() of every slot before the call
+  bool pd_heap[8] = {false, false, false, false, false, false, false, false};
+  bool g_c18_rule = true;
+  uint64_t n_small_growth = 0;
   Slot<Vec> P[NP];
   Slot<Vec2> Q[NQ];
   Slot<VecZ> Z[1];
@@ -207,6 +211,18 @@ struct Engine {
         }
       }
     }
+    // C18: a vector that has to grow without an explicit request grows geometrically. Judged where the new buffer is a fresh heap block (not the
+    // inline storage, not this slot's previous buffer, not a buffer that another pool member owned before the call = hand-over).
+    // (swap2 adjusts the capacities of both operands to exactly what the exchange needs before exchanging: an explicit request like reserve)
+    if (!s.fresh && !VI::kFixed && !((oi.grow_ok >> gid) & 1u) && now.cap > s.prev.cap && !now.inl && now.data != s.prev.data && s.prev.cap > 0 && g_cur_sig.compare(0, 5, "swap2") != 0) {
+      bool taken_over = false;
+      for (int g = 0; g < NP + NQ + NZ && !taken_over; ++g) if (g != gid && pd_heap[g] && pd_data[g] == now.data) taken_over = true;
+      uintmax_t want = (3 * s.prev.cap + 1) / 2;
+      if (!taken_over && now.cap < want && now.cap < VI::limit()) {
+        if (g_c18_rule) violation("C18", "growth.factor_below_1_5", fmt("slot %d: capacity grew from %ju to %ju by a new allocation (< ceil(1.5 * old) = %ju) without an explicit reserve", gid, s.prev.cap, now.cap, want));
+        else ++n_small_growth;
+      }
+    }
     // C05 (the entitlement rules were judged above, before the elements were read)
     if (VI::kFixed) {
       if (now.data != s.begin0 && !s.fresh) violation("C05", "fixed.begin_changed", fmt("slot %d: FixedCapacityVector begin() changed", gid));
@@ -240,6 +256,7 @@ struct Engine {
       ho[k].src_heap = !sp->inl && sp->cap > 0;
       ho[k].n = sp->size;
     }
+    for (int g = 0; g < NP + NQ + NZ && g < 8; ++g) { const Snap *o = prev_snap(g); pd_data[g] = o ? o->data : nullptr; pd_heap[g] = o && !o->inl && o->cap > 0; }
     std::vector<uint32_t> all_serials;
     long visible = 0;
     for (int i = 0; i < NP; ++i) verify_slot(P[i], i, oi, all_serials, visible);
